@@ -37,13 +37,21 @@ class FakeWordnet:
 class Node(_core.Synset):
     __slots__ = ('_adj', '_nodes', '_hypo')
 
+    def _fresh(self, j):
+        # like the real accessors, hand out a NEW object for the related synset on every call (same rowid, so equal
+        # and hashing alike, but not identical: code that compares with `is` must not work here either)
+        o = self._nodes[j]
+        c = Node(o.id, o.pos, ili=o._ili, _lexid=o._lexid, _id=o._id, _wordnet=o._wordnet)
+        c._adj, c._nodes, c._hypo = o._adj, o._nodes, o._hypo
+        return c
+
     def get_related(self, *args):
         # the graph's adjacency for hypernym/instance_hypernym, its inverse for hyponym/instance_hyponym
         if set(args) & {'hypernym', 'instance_hypernym'}:
-            return [self._nodes[j] for j in self._adj]
+            return [self._fresh(j) for j in self._adj]
         if set(args) & {'hyponym', 'instance_hyponym'}:
-            return [self._nodes[j] for j in self._hypo]
-        return [self._nodes[j] for j in self._adj]
+            return [self._fresh(j) for j in self._hypo]
+        return [self._fresh(j) for j in self._adj]
 
 
 def build(graph, pos=None, wordnet=None):
@@ -281,8 +289,38 @@ def check_taxonomy(graph, known_cycle_restriction=True):
     return fails
 
 
+class _Timeout(BaseException):
+    pass
+
+
+def _alarm(signum, frame):
+    raise _Timeout()
+
+
+CASE_SECONDS = 15       # a case normally takes milliseconds; the enumerators must terminate on every finite graph
+
+
 def _run(args):
+    import signal
     kind, graph = args
+    armed = False
+    try:
+        signal.signal(signal.SIGALRM, _alarm)
+        signal.setitimer(signal.ITIMER_REAL, CASE_SECONDS)
+        armed = True
+    except (ValueError, AttributeError):      # not in a main thread: no watchdog
+        pass
+    try:
+        return _run_case(kind, graph)
+    except _Timeout:
+        return [('termination', {'graph': graph, 'error': f'no result within {CASE_SECONDS} s (an enumerator that does '
+                                                          'not terminate on this graph)'})]
+    finally:
+        if armed:
+            signal.setitimer(signal.ITIMER_REAL, 0)
+
+
+def _run_case(kind, graph):
     try:
         if kind == 'paths':
             return check_paths_and_closure(graph)
@@ -311,11 +349,18 @@ def sweep(kind: str, max_nodes: int, procs: Optional[int] = None, limit: Optiona
                 break
     procs = procs or min(16, os.cpu_count() or 1)
     fails = []
+    # enough failures to report: stop (a non-terminating enumerator costs CASE_SECONDS per graph)
+    enough = 40
     if len(jobs) < 200 or procs == 1:
         for j in jobs:
             fails.extend(_run(j))
+            if len(fails) >= enough:
+                break
     else:
         with multiprocessing.Pool(procs) as pool:
-            for r in pool.imap_unordered(_run, jobs, chunksize=64):
+            for r in pool.imap_unordered(_run, jobs, chunksize=16):
                 fails.extend(r)
+                if len(fails) >= enough:
+                    pool.terminate()
+                    break
     return len(jobs), fails
